@@ -251,6 +251,11 @@ func ParseDictionary(s string, f func(key, val, param string)) (ok bool) {
 		if len(s) == 0 {
 			break
 		}
+		if s[0] != ',' {
+			// "Consume the first character of input_string;
+			// if it is not ",", fail parsing."
+			return false
+		}
 		if s[0] == ',' {
 			s = s[1:]
 		}
